@@ -23,7 +23,8 @@ def bits (inv : Bool) (l : List Bool) : String :=
 
 def parseFlags (s : String) : Fixes :=
   let fs := s.splitOn ","
-  { f1 := fs.contains "f1", f25 := fs.contains "f25", f186 := fs.contains "f186" }
+  { f1 := fs.contains "f1", f25 := fs.contains "f25", f186 := fs.contains "f186", f190 := fs.contains "f190",
+    f187 := fs.contains "f187" }
 
 def handle (op : String) (args : List String) : String :=
   match op, args with
